@@ -314,7 +314,13 @@ enum Fail {
     /// the reply is lost while unrelated traffic (a response with a stale sequence number) keeps
     /// arriving more often than one response timeout
     NoisyTimeout,
+    /// the addressed outstation stays silent; the ideal reply (right sequence number, faithful
+    /// contents) arrives from another outstation that is also associated with the channel
+    OtherAssociationReplies,
 }
+
+/// a second outstation on the same channel
+const OTHER_OUTSTATION: u16 = 1025;
 
 struct FileLog {
     log: MCbLog,
@@ -413,7 +419,7 @@ fn build_outcomes() -> Outcomes {
     let mut cases = Vec::new();
     for k in 0..KINDS {
         cases.push((k, Fail::None, 0));
-        for f in [Fail::Timeout, Fail::Eof, Fail::Disable, Fail::RemoveAssociation, Fail::NoisyTimeout] {
+        for f in [Fail::Timeout, Fail::Eof, Fail::Disable, Fail::RemoveAssociation, Fail::NoisyTimeout, Fail::OtherAssociationReplies] {
             for step in 0..4 {
                 cases.push((k, f, step));
             }
@@ -444,6 +450,10 @@ impl CaseSpace for Outcomes {
             res.violation = Some(Violation::new("C16.P0", "setup", "add_association".to_string()));
             return res;
         };
+        if sim.add_association(OTHER_OUTSTATION, quiet()).is_none() {
+            res.violation = Some(Violation::new("C16.P0", "setup", "add second association".to_string()));
+            return res;
+        }
         sim.take_out();
         sim.take_cb();
         if index == self.cases.len() {
@@ -496,6 +506,11 @@ impl CaseSpace for Outcomes {
                             injected = true;
                             match fail {
                                 Fail::Timeout | Fail::NoisyTimeout => {}
+                                Fail::OtherAssociationReplies => {
+                                    let iin1 = if data[1] == fc::RECORD_CURRENT_TIME || data[1] == fc::DELAY_MEASURE { 0x10 } else { 0 };
+                                    let r = ideal_reply(data, iin1);
+                                    sim.respond_from(OTHER_OUTSTATION, &r);
+                                }
                                 Fail::Eof => sim.disconnect(),
                                 Fail::Disable => {
                                     let mut ch = sim.channel.clone();
@@ -603,6 +618,132 @@ impl CaseSpace for Outcomes {
         }
         res.model_states.push((k * 8 + fail as usize) as u64);
         res.nontrivial = true;
+        res
+    }
+}
+
+/// Requests of different kinds wait in the queue of one association while a first READ is
+/// outstanding: a READ, a command, a link status check and a time synchronisation that is
+/// abandoned at its start (the application has no clock).  Every sequence of up to 3 of them;
+/// the outstation answers everything ideally: each request gets exactly one outcome within the
+/// time its protocol steps allow, whatever stands before it in the queue.
+struct QueuedMixed;
+
+const QKINDS: usize = 4;
+
+impl CaseSpace for QueuedMixed {
+    fn name(&self) -> String {
+        "queued-requests-of-mixed-kinds".to_string()
+    }
+    fn seeded(&self) -> bool {
+        true
+    }
+    fn total(&self) -> usize {
+        QKINDS + QKINDS * QKINDS + QKINDS * QKINDS * QKINDS
+    }
+    fn run(&self, index: usize, transcript: bool) -> RunResult {
+        let mut res = RunResult::default();
+        let mut kinds: Vec<usize> = Vec::new();
+        let mut i = index;
+        if i < QKINDS {
+            kinds.push(i);
+        } else if i < QKINDS + QKINDS * QKINDS {
+            i -= QKINDS;
+            kinds.extend([i / QKINDS, i % QKINDS]);
+        } else {
+            i -= QKINDS + QKINDS * QKINDS;
+            kinds.extend([i / (QKINDS * QKINDS), (i / QKINDS) % QKINDS, i % QKINDS]);
+        }
+        res.obs = index as u64 + 60000;
+        let mut sim = MSim::new(&MCfg { reconnect_delay_ms: 500, ..Default::default() }, 1);
+        *sim.clock.base_ms.lock().unwrap() = None;
+        let mut cfg = quiet();
+        cfg.max_queued_user_requests = 8;
+        let Some(a) = sim.add_association(OUTSTATION_ADDR, cfg) else {
+            return res;
+        };
+        sim.take_out();
+        sim.take_cb();
+        // the request that occupies the channel while the others are queued
+        {
+            let mut a2 = a.clone();
+            sim.call("first", async move { a2.read(ReadRequest::class_scan(Classes::class0())).await });
+        }
+        for (n, k) in kinds.iter().enumerate() {
+            let mut a2 = a.clone();
+            let name = format!("req{n}");
+            match k {
+                0 => {
+                    sim.call(&name, async move { a2.read(ReadRequest::class_scan(Classes::class123())).await });
+                }
+                1 => {
+                    let cmd = CommandBuilder::single_header_u8(crob(n as u32), 3);
+                    sim.call(&name, async move { a2.operate(CommandMode::DirectOperate, cmd).await });
+                }
+                2 => {
+                    sim.call(&name, async move { a2.check_link_status().await });
+                }
+                _ => {
+                    sim.call(&name, async move { a2.synchronize_time(TimeSyncProcedure::Lan).await });
+                }
+            }
+        }
+        res.transitions += kinds.len() + 1;
+        // ideal outstation: every request and every link status request is answered at once
+        let bound = (kinds.len() as u64 + 3) * RT;
+        let mut waited = 0u64;
+        while waited <= bound {
+            for t in sim.take_out() {
+                match &t {
+                    MTx::Frag { data, .. } if data.len() >= 2 && data[1] != fc::CONFIRM => {
+                        if transcript {
+                            res.transcript.push(format!("t+{waited}: request {}", app::hex(&data[..data.len().min(24)])));
+                        }
+                        let r = ideal_reply(data, 0);
+                        sim.respond(&r);
+                    }
+                    MTx::Link { frame, .. } if frame.func() == crate::wire::link::PRI_REQUEST_LINK_STATUS && frame.is_prm() => {
+                        sim.send_raw(&crate::wire::link::frame(0x0B, 1, OUTSTATION_ADDR, &[]));
+                    }
+                    _ => {}
+                }
+            }
+            sim.advance(100);
+            waited += 100;
+        }
+        let (cbs, _) = sim.take_cb();
+        if let Some(f) = sim.failure() {
+            res.violation = Some(Violation::new("C16.X0", f.clone(), f));
+            return res;
+        }
+        let names = ["read", "command", "link-status", "time-sync-without-clock"];
+        let label: Vec<&str> = kinds.iter().map(|k| names[*k]).collect();
+        for (n, k) in kinds.iter().enumerate() {
+            let name = format!("req{n}");
+            let done: Vec<&String> = cbs.iter().filter_map(|c| if let MCb::Done(nm, r) = c { if *nm == name { Some(r) } else { None } } else { None }).collect();
+            if transcript {
+                res.transcript.push(format!("{name} ({}): {done:?}", names[*k]));
+            }
+            if done.len() != 1 {
+                res.violation = Some(Violation::new(
+                    "C16.U1",
+                    format!("queued-request-not-resolved-exactly-once:{}", names[*k]),
+                    format!("queue {label:?} behind an outstanding READ, every request answered ideally: request {n} has {} outcomes after {bound} ms", done.len()),
+                ));
+                return res;
+            }
+            let ok = done[0].contains("Ok(");
+            if ok != (*k != 3) {
+                res.violation = Some(Violation::new(
+                    if ok { "C16.U3" } else { "C16.U4" },
+                    format!("queued-request-wrong-outcome:{}", names[*k]),
+                    format!("queue {label:?}: request {n} -> {}", done[0]),
+                ));
+                return res;
+            }
+        }
+        res.nontrivial = true;
+        res.model_states.push(index as u64 + 5000);
         res
     }
 }
@@ -813,6 +954,9 @@ pub fn replay(name: &str, path: &[usize]) -> Option<RunResult> {
     if Builder.name() == name {
         return Some(Builder.run(path[0], true));
     }
+    if QueuedMixed.name() == name {
+        return Some(QueuedMixed.run(path[0], true));
+    }
     for tier in ["quick", "thorough"] {
         let e = build_echo(tier);
         if e.name() == name && path[0] < e.total() {
@@ -831,10 +975,11 @@ pub fn check(tier: &str) -> i32 {
     c.cases(&build_echo(tier));
     c.cases(&build_outcomes());
     c.cases(&Queued);
+    c.cases(&QueuedMixed);
     c.cases(&Builder);
     c.finish(
         "model_checking",
-        "(1) 15 command sets (g12v1, g41v1..4 x {one object 8-bit index, two objects 16-bit index, two headers}) x {DIRECT_OPERATE, SELECT step, OPERATE step} x the faithful echo and every single mutation of it (every byte +-1, every status code in every object, header dropped / duplicated / appended, object dropped / added / reordered, empty reply): success must be reported iff the echo is faithful, OPERATE must follow only a faithful SELECT echo with the next sequence number and identical objects; (2) 18 request kinds (read, read with handler, direct and select-before-operate commands, LAN and non-LAN time synchronisation, cold / warm restart, dead-band write, empty-response request, link status check, file authentication / open / write block / close / info, directory read, file read with a FileReader) x {no failure, reply lost, connection lost, channel disabled, association removed} x failure at protocol step 0..3, plus a full request queue: the user future (or the FileReader's terminal callback) fires exactly once, with an error iff a failure was injected, within (steps + 2) response timeouts; non-trivial = the case ran to a verdict; distinct = distinct case",
+        "(1) 15 command sets (g12v1, g41v1..4 x {one object 8-bit index, two objects 16-bit index, two headers}) x {DIRECT_OPERATE, SELECT step, OPERATE step} x the faithful echo and every single mutation of it (every byte +-1, every status code in every object, header dropped / duplicated / appended, object dropped / added / reordered, empty reply): success must be reported iff the echo is faithful, OPERATE must follow only a faithful SELECT echo with the next sequence number and identical objects; (2) 18 request kinds (read, read with handler, direct and select-before-operate commands, LAN and non-LAN time synchronisation, cold / warm restart, dead-band write, empty-response request, link status check, file authentication / open / write block / close / info, directory read, file read with a FileReader) x {no failure, reply lost, reply lost under stale-sequence noise, the ideal reply arriving from another associated outstation while the addressed one stays silent, connection lost, channel disabled, association removed} x failure at protocol step 0..3; every queue of up to 3 requests drawn from {READ, command, link status check, time synchronisation abandoned at its start} behind an outstanding READ with an ideal outstation (each resolved exactly once, only the abandoned ones with an error), plus a full request queue: the user future (or the FileReader's terminal callback) fires exactly once, with an error iff a failure was injected, within (steps + 2) response timeouts; non-trivial = the case ran to a verdict; distinct = distinct case",
         &[
             "master shut-down (dropping every channel handle) is not driven: the simulation itself holds a handle",
             "the ideal outstation answers every request with the minimal well-formed success response",
